@@ -31,6 +31,7 @@ type SpecEnv struct {
 	Fn         *ssa.Function
 	CalleeView bool // evaluating a callee's contract at a call site: locals of the caller are not visible
 	LoopHeader *ssa.BasicBlock // set while evaluating a loop invariant
+	AllocPre   *smt.Term        // allocation set at the time of the call (callee contracts)
 	macroDepth int
 }
 
@@ -299,11 +300,13 @@ func (x *Exec) evalIdent(env *SpecEnv, name string) SVal {
 				if v, ok := env.S.env[a]; ok {
 					return SVal{T: v.(TermVal).T, GT: a.Type()}
 				}
-				specFail("local %s not yet allocated", name)
+				return SVal{T: smt.Fresh("unalloc$"+name, smt.Ref), GT: a.Type()}
 			}
 			cv, ok := env.S.cells[a]
 			if !ok {
-				specFail("local %s not yet allocated at this point", name)
+				// not allocated on this path: the clause must hold for any value
+				x.E.Note("contract of %s mentions local %s on a path where it is not yet in scope: treated as an arbitrary value", x.fn.String(), name)
+				return SVal{T: x.freshOf(env.S, et, "unalloc$"+name), GT: et}
 			}
 			return SVal{T: x.toTerm(env.S, cv, et), GT: et}
 		}
@@ -577,8 +580,12 @@ func (x *Exec) evalCall(env *SpecEnv, e *spec.Call) SVal {
 	case "allocated":
 		return SVal{T: smt.Select(x.entryAlloc(), arg(0).T)}
 	case "fresh":
-		// fresh(r): r was not allocated at function entry
-		return SVal{T: smt.And(smt.Not(smt.Select(x.entryAlloc(), arg(0).T)), smt.Neq(arg(0).T, RefNil))}
+		// fresh(r): r was not allocated at function entry (at a call site: not allocated when the call was made)
+		al := x.entryAlloc()
+		if env.AllocPre != nil {
+			al = env.AllocPre
+		}
+		return SVal{T: smt.And(smt.Not(smt.Select(al, arg(0).T)), smt.Neq(arg(0).T, RefNil), smt.Eq(RootOf(arg(0).T), arg(0).T))}
 	case "unbox":
 		// unbox(T, x) -- first arg is a type name
 		tn, ok := e.Args[0].(*spec.Ident)
@@ -790,10 +797,27 @@ func (x *Exec) resolveTargets(env *SpecEnv, a spec.Expr) (ts []Target, all bool)
 				return x.allFieldTargets(b.T, st), false
 			}
 		}
-		// Type.field : that field of every object
+		// Type.field / pkg.Type.field / iface.ghost : that field of every object
+		tname := ""
 		if id, ok := a.X.(*spec.Ident); ok {
 			if _, isVar := env.Vars[id.Name]; !isVar {
-				if t, err := E.lookupNamed(env.Pkg, id.Name); err == nil && isStruct(t) {
+				tname = id.Name
+			}
+		} else if sl, ok := a.X.(*spec.Sel); ok {
+			if id, ok := sl.X.(*spec.Ident); ok {
+				if _, isVar := env.Vars[id.Name]; !isVar && E.findPkgByName(env.Pkg, id.Name) != nil {
+					tname = id.Name + "." + sl.Name
+				}
+			}
+		}
+		if tname == "iface" {
+			if gf, ok := E.GhostF[a.Name]; ok {
+				return []Target{{Heap: gf.Heap}}, false
+			}
+		}
+		if tname != "" {
+			{
+				if t, err := E.lookupNamed(env.Pkg, tname); err == nil && isStruct(t) {
 					u := t.Underlying().(*types.Struct)
 					for i := 0; i < u.NumFields(); i++ {
 						if u.Field(i).Name() == a.Name {
